@@ -1,8 +1,186 @@
-//! C20 harness entry (not implemented yet).
+//! C20: determinism of the conversions. Each case names a source (GDSII bytes as hex, or LEF text) and the harness
+//! runs the whole conversion chain `reps` times in this process, from scratch each time, printing every intermediate
+//! result in its own order (vectors as they are; the contents of hash-map FIELDS of a result are printed sorted by
+//! layer number, since a map has no order of its own; creation dates are zeroed). The Python side also runs this
+//! binary in several separate processes (fresh per-process hash seeds) and compares the printed results.
 use l21h::{json, Value};
+use layout21raw as raw;
+use raw::utils::Ptr;
 
-fn run(_case: &Value) -> Value {
-    json!({"harness_error": "not implemented"})
+fn hex_decode(s: &str) -> Vec<u8> {
+    (0..s.len() / 2).map(|i| u8::from_str_radix(&s[2 * i..2 * i + 2], 16).unwrap()).collect()
+}
+fn pt(p: &raw::Point) -> Value {
+    json!([p.x, p.y])
+}
+fn shape(s: &raw::Shape) -> Value {
+    match s {
+        raw::Shape::Rect(r) => json!({"rect": [pt(&r.p0), pt(&r.p1)]}),
+        raw::Shape::Polygon(p) => json!({"poly": p.points.iter().map(pt).collect::<Vec<_>>()}),
+        raw::Shape::Path(p) => json!({"path": p.points.iter().map(pt).collect::<Vec<_>>(), "width": p.width}),
+    }
+}
+fn layer_id(layers: &raw::Layers, k: raw::LayerKey) -> Value {
+    match layers.get(k) {
+        Some(l) => json!([l.layernum, l.name]),
+        None => json!("missing-layer"),
+    }
+}
+fn shape_map(layers: &raw::Layers, m: &std::collections::HashMap<raw::LayerKey, Vec<raw::Shape>>) -> Value {
+    let mut v: Vec<(i16, Value)> = m
+        .iter()
+        .map(|(k, shapes)| {
+            let num = layers.get(*k).map(|l| l.layernum).unwrap_or(-1);
+            (num, json!([layer_id(layers, *k), shapes.iter().map(shape).collect::<Vec<_>>()]))
+        })
+        .collect();
+    v.sort_by_key(|x| x.0);
+    Value::Array(v.into_iter().map(|x| x.1).collect())
+}
+/// Order-preserving print of a raw library
+fn print_raw(lib: &raw::Library) -> Value {
+    let layers = lib.layers.read().unwrap();
+    let mut cells = Vec::new();
+    for c in lib.cells.iter() {
+        let c = c.read().unwrap();
+        let layout = c.layout.as_ref().map(|l| {
+            json!({
+                "name": l.name,
+                "insts": l.insts.iter().map(|i| json!({"name": i.inst_name, "cell": i.cell.read().unwrap().name, "loc": pt(&i.loc),
+                    "reflect_vert": i.reflect_vert, "angle": i.angle.map(|a| a.to_bits())})).collect::<Vec<_>>(),
+                "elems": l.elems.iter().map(|e| json!({"net": e.net, "layer": layer_id(&layers, e.layer),
+                    "purpose": format!("{:?}", e.purpose), "shape": shape(&e.inner)})).collect::<Vec<_>>(),
+                "annotations": l.annotations.iter().map(|t| json!([t.string, pt(&t.loc)])).collect::<Vec<_>>(),
+            })
+        });
+        let abs = c.abs.as_ref().map(|a| {
+            json!({
+                "name": a.name,
+                "outline": a.outline.points.iter().map(pt).collect::<Vec<_>>(),
+                "ports": a.ports.iter().map(|p| json!({"net": p.net, "shapes": shape_map(&layers, &p.shapes)})).collect::<Vec<_>>(),
+                "blockages": shape_map(&layers, &a.blockages),
+            })
+        });
+        cells.push(json!({"name": c.name, "layout": layout, "abs": abs}));
+    }
+    // layers in slot (creation) order
+    let ls: Vec<Value> = layers.slots.iter().map(|(_, l)| json!([l.layernum, l.name])).collect();
+    json!({"name": lib.name, "units": format!("{:?}", lib.units), "cells": cells, "layers": ls})
+}
+fn zero_dates(g: &mut gds21::GdsLibrary) {
+    g.dates = Default::default();
+    for s in g.structs.iter_mut() {
+        s.dates = Default::default();
+    }
+}
+fn chain_from_raw(lib: &raw::Library, out: &mut Vec<(String, String)>) {
+    out.push(("raw".into(), print_raw(lib).to_string()));
+    match lib.to_gds() {
+        Ok(mut g) => {
+            zero_dates(&mut g);
+            out.push(("raw_to_gds".into(), format!("{:?}", g)));
+        }
+        Err(e) => out.push(("raw_to_gds".into(), format!("ERR {}", short(&format!("{:?}", e))))),
+    }
+    match lib.to_proto() {
+        Ok(p) => {
+            out.push(("raw_to_proto".into(), format!("{:?}", p)));
+            match raw::Library::from_proto(p, None) {
+                Ok(l2) => out.push(("proto_to_raw".into(), print_raw(&l2).to_string())),
+                Err(e) => out.push(("proto_to_raw".into(), format!("ERR {}", short(&format!("{:?}", e))))),
+            }
+        }
+        Err(e) => out.push(("raw_to_proto".into(), format!("ERR {}", short(&format!("{:?}", e))))),
+    }
+    match raw::lef::LefExporter::export(lib) {
+        Ok(l) => out.push(("raw_to_lef".into(), format!("{:?}", l))),
+        Err(e) => out.push(("raw_to_lef".into(), format!("ERR {}", short(&format!("{:?}", e))))),
+    }
+}
+/// Error texts embed Debug prints of hash maps (not part of any conversion result): only the error class is compared.
+fn short(_s: &str) -> String {
+    String::new()
+}
+/// A layer table with the purposes the exporters need, so that the chains do not stop at "purpose not defined".
+fn prepared_layers() -> Ptr<raw::Layers> {
+    use raw::LayerPurpose::*;
+    let mut layers = raw::Layers::default();
+    let names = ["met1", "met2", "met3", "via1", "poly"];
+    let nums = [1i16, 2, 5, 7, 31, 66];
+    for (i, num) in nums.iter().enumerate() {
+        let mut l = match names.get(i) {
+            Some(n) => raw::Layer::new(*num, *n),
+            None => raw::Layer::from_num(*num),
+        };
+        l.add_purpose(0, Drawing).unwrap();
+        l.add_purpose(1, Pin).unwrap();
+        l.add_purpose(20, Label).unwrap();
+        l.add_purpose(3, Obstruction).unwrap();
+        layers.add(l);
+    }
+    Ptr::new(layers)
+}
+fn once(case: &Value) -> Vec<(String, String)> {
+    let mut out = Vec::new();
+    match case["src"].as_str().unwrap_or("") {
+        "gds" => {
+            let bytes = hex_decode(case["hex"].as_str().unwrap());
+            match gds21::GdsLibrary::from_bytes(&bytes) {
+                Err(e) => out.push(("gds_read".into(), format!("ERR {}", short(&format!("{:?}", e))))),
+                Ok(g) => match raw::Library::from_gds(&g, Some(prepared_layers())) {
+                    Err(e) => out.push(("gds_to_raw".into(), format!("ERR {}", short(&format!("{:?}", e))))),
+                    Ok(lib) => chain_from_raw(&lib, &mut out),
+                },
+            }
+        }
+        "lef" => {
+            let dir = std::path::Path::new("/verif/work/c20/tmp");
+            std::fs::create_dir_all(dir).unwrap();
+            let path = dir.join(format!("t{}.lef", std::process::id()));
+            std::fs::write(&path, case["text"].as_str().unwrap()).unwrap();
+            let r = lef21::LefLibrary::open(&path);
+            let _ = std::fs::remove_file(&path);
+            match r {
+                Err(e) => out.push(("lef_read".into(), format!("ERR {}", short(&format!("{:?}", e))))),
+                Ok(l) => match raw::lef::LefImporter::import(&l, Some(prepared_layers())) {
+                    Err(e) => out.push(("lef_to_raw".into(), format!("ERR {}", short(&format!("{:?}", e))))),
+                    Ok(lib) => chain_from_raw(&lib, &mut out),
+                },
+            }
+        }
+        _ => out.push(("bad_src".into(), "".into())),
+    }
+    out
+}
+
+fn run(case: &Value) -> Value {
+    let reps = case["reps"].as_u64().unwrap_or(3);
+    let first = once(case);
+    let mut unstable: Vec<String> = Vec::new();
+    for _ in 1..reps {
+        let again = once(case);
+        for (a, b) in first.iter().zip(again.iter()) {
+            if a != b && !unstable.contains(&a.0) {
+                unstable.push(a.0.clone());
+            }
+        }
+        if first.len() != again.len() {
+            unstable.push("chain-length".into());
+        }
+    }
+    let want_out = case["want_out"].as_bool().unwrap_or(false);
+    let stages: Vec<Value> = first
+        .iter()
+        .map(|(k, v)| {
+            let mut h: u64 = 1469598103934665603; // FNV-1a, seed-free
+            for b in v.as_bytes() {
+                h ^= *b as u64;
+                h = h.wrapping_mul(1099511628211);
+            }
+            if want_out { json!([k, h, v]) } else { json!([k, h, v.len(), v.starts_with("ERR")]) }
+        })
+        .collect();
+    json!({"stages": stages, "unstable_in_process": unstable})
 }
 
 fn main() {
